@@ -14,7 +14,7 @@ class C09(Config):
               "Local Open Scope Z_scope.")
     bin = "c09"
     release_too = True
-    n_tags = 95
+    n_tags = 112
     classes = {}
     rule = ("every public operator of value.rs on the boundary lattice (all pairs, exhaustive) plus random "
             "values from one ChaCha8 stream; distinct = distinct (operator, inputs, outcome) lines; "
@@ -26,7 +26,7 @@ class C09(Config):
         "harness/pure/src/bin/c09.rs printers and catch_unwind wrappers; vlib case-file generator",
         "model of i64/u64 machine arithmetic in coq/Lib/MachInt.v (debug-profile semantics; release profile exercised in thorough)",
     ]
-    assumptions = ["usize is 64 bits (the harness target)", "const_from_* are called only inside their documented domain (their panic is the documented failure signal)"]
+    assumptions = ["usize is 64 bits (the harness target)", "const_from_* signal failure by panicking (assert! in a const fn): modelled as Panic outside the range and checked against the implementation through catch_unwind"]
     partial_clauses = []
 
     @staticmethod
